@@ -23,6 +23,8 @@ CONSTANTS MaxBlocks,       \* bound on block ids handed out
           ActiveTxs,       \* subset of the catalogue used by this configuration
           KF_PoolMasksBlockOrder, \* known deviation: a block that lists a consumer before its producer plays on
                                   \* a node whose pool already holds both (pool members are skipped)
+          KF_PlayKeepsStaleReader, \* known deviation: see Play
+          KF_PoolOrderAntiDep,    \* known deviation: the pool's order ignores read-before-overwrite (anti-dependency)
           KF_FrozenLedgerHeight  \* known deviation: a block's frozen-output check uses the node's ledger
                                  \* height at play time instead of the block's own height
 
@@ -88,6 +90,8 @@ RECURSIVE Anc(_)
 Anc(b) == IF b = 0 THEN {} ELSE {b} \cup Anc(Parent(b))
 TxsOf(b) == Range(blk[b].txs)
 OnChain(t, b) == \E a \in Anc(b) : t \in TxsOf(a)
+Confirmed(v) == \E b \in Anc(ltip) : v \in TxsOf(b)           \* on the ledger's main chain
+TxHeight(v) == Height(CHOOSE b \in Anc(ltip) : v \in TxsOf(b))
 
 (* ---- pure state functions -------------------------------------------------------------------- *)
 St == [utxo |-> utxo, zu |-> zu, zd |-> zd, total |-> total]
@@ -184,8 +188,11 @@ Set(s) == utxo' = s.utxo /\ zu' = s.zu /\ zd' = s.zd /\ total' = s.total
 Log(e) == hist' = Append(hist, e)
 
 (* ---- Submit: Chain.SubmitTx = VerifyTx then DoTx ---------------------------------------------- *)
+(* Precondition (quantifier of C03 / C13): a transaction that is already confirmed on the pointer's chain or on the
+   ledger's main chain is not submitted again (the engine's SubmitTx keeps a txid cache and, on chains with fees,
+   every transaction consumes token inputs, so such a re-submission is refused as stale anyway). *)
 Submit(t) ==
-  /\ t \in Txs
+  /\ t \in Txs /\ ~OnChain(t, ptr) /\ ~Confirmed(t)
   /\ IF t \in pool THEN UNCHANGED <<utxo, zu, zd, total, pool>> /\ Log([op |-> "submit", t |-> t, res |-> "stale"])
      ELSE IF Valid(St, t, LHeight) THEN Set(Apply(St, t)) /\ pool' = pool \cup {t} /\ Log([op |-> "submit", t |-> t, res |-> "admit"])
      ELSE UNCHANGED <<utxo, zu, zd, total, pool>> /\ Log([op |-> "submit", t |-> t, res |-> "stale"])
@@ -210,61 +217,25 @@ MkBadBlock(p, seq) ==
   /\ \A i \in DOMAIN seq : ~OnChain(seq[i], p)
   /\ NewBlock(p, seq)
 (* trace validation: whatever block the driver built *)
-MkAnyBlock(p, seq) == p \in 1..n /\ NewBlock(p, seq)
+MkAnyBlock(p, seq) ==
+  /\ p \in 1..n
+  /\ IF p = ltip /\ \E i \in DOMAIN seq : Confirmed(seq[i])      \* the ledger refuses a tx that is already on the trunk
+     THEN UNCHANGED <<blk, n, ltip, ptr, utxo, zu, zd, total, irr, pool, dev, applied, pruned>>
+          /\ Log([op |-> "mkblock", p |-> p, txs |-> seq, res |-> "fail"])
+     ELSE NewBlock(p, seq)
 
 (* ledger height against which a block's frozen inputs are judged *)
 BlockLH(b) == IF KF_FrozenLedgerHeight THEN LHeight ELSE Height(b)
 DevFrozen(differs) == IF KF_FrozenLedgerHeight /\ differs THEN dev \cup {"KF_FrozenLedgerHeight"} ELSE dev
 
-(* ---- Play: PlayAndRepost of a block whose parent is the pointer ------------------------------- *)
-Descendants(S) == LET RECURSIVE D(_)
-                      D(X) == LET Y == X \cup {t \in pool : \E u \in X : DependsOn(t, u)} IN IF Y = X THEN X ELSE D(Y)
-                  IN D(S)
-(* processUnconfirmTxs: pool members that conflict with the block *)
-BlockVersion(b, k) ==    \* version the block leaves for key k (NoRd if it does not write k)
-  LET ws == {i \in DOMAIN blk[b].txs : TX[blk[b].txs[i]].writes[k] # NoRd} IN
-  IF ws = {} THEN NoRd ELSE blk[b].txs[Max(ws)]
-Conflicts(b) ==
-  LET inb == TxsOf(b)
-      binputs == UNION {TX[t].ins : t \in inb} IN
-  {u \in pool \ inb :
-     \/ TX[u].ins \cap binputs # {}
-     \/ \E k \in Keys : /\ BlockVersion(b, k) # NoRd /\ BlockVersion(b, k) \notin pool
-                        /\ \/ (TX[u].reads[k] # NoRd /\ TX[u].reads[k] # BlockVersion(b, k))
-                           \/ (TX[u].writes[k] # NoRd /\ u # BlockVersion(b, k))}
-(* obsres: the result observed on the real node ("ok" / "fail"; trace validation) or "*" (generation, MC).
-   Known deviation KF_PoolMasksBlockOrder: PlayAndRepost validates the block's transactions against the
-   stored state, which still contains the effects of the node's own pending transactions (those it
-   undoes as conflicting are only undone in the batch). When the node's pool is not empty and a node
-   without that pool would refuse the block, the outcome on the real node is therefore not determined
-   by the design: the deviation accepts whatever was observed and the rest of the behaviour is not judged. *)
-Play(b, obsres) ==
-  /\ b \in 2..n
-  /\ IF Parent(b) # ptr
-     THEN UNCHANGED <<ptr, utxo, zu, zd, total, irr, pool, dev, applied>> /\ Log([op |-> "play", b |-> b, res |-> "fail"])
-     ELSE LET undone == Descendants(Conflicts(b))
-              keep == pool \cap TxsOf(b)
-              base == UndoSet(St, undone)
-              r  == PlayBlock(base, b, keep, BlockLH(b))
-              ri == PlayBlock(base, b, keep, Height(b))
-              fresh == PlayBlock(UndoSet(St, pool), b, {}, Height(b)).ok   \* would a node without this pool play it?
-              masked == KF_PoolMasksBlockOrder /\ pool # {} /\ ~fresh
-              ok == IF masked THEN (IF obsres = "*" THEN r.ok ELSE obsres = "ok") ELSE r.ok /\ fresh
-              s2 == IF r.ok THEN r.s ELSE ForceTxs([base EXCEPT !.utxo = @ \cup {AwardU(b)}, !.total = @ + Award], blk[b].txs) IN
-          /\ dev' = (DevFrozen(r.ok # ri.ok) \cup IF masked /\ ok THEN {"KF_PoolMasksBlockOrder"} ELSE {})
-          /\ IF ok THEN /\ Set(s2) /\ ptr' = b /\ pool' = (pool \ undone) \ keep /\ irr' = NextIrr(irr, Height(b))
-                         /\ applied' = applied \cup {b}
-                         /\ Log([op |-> "play", b |-> b, res |-> "ok"])
-             ELSE UNCHANGED <<ptr, utxo, zu, zd, total, irr, pool, applied>> /\ Log([op |-> "play", b |-> b, res |-> "fail"])
-  /\ UNCHANGED <<blk, n, ltip, pruned>>
-
 (* ---- Mine: the node packs its own pool (in the order seq), confirms and PlayForMiner ----------- *)
+Packable == {t \in pool : ~Confirmed(t)}       \* the miner skips pending txs that are already on the main chain
 Mine(seq) ==
-  /\ n < MaxBlocks /\ ptr = ltip /\ Range(seq) = pool /\ NoDupSeq(seq) /\ Len(seq) = Cardinality(pool)
+  /\ n < MaxBlocks /\ ptr = ltip /\ Range(seq) = Packable /\ NoDupSeq(seq) /\ Len(seq) = Cardinality(Packable)
   /\ LET b == n + 1 IN
      /\ blk' = blk @@ (b :> [parent |-> ptr, height |-> Height(ptr) + 1, txs |-> seq]) /\ n' = b /\ ltip' = b
-     /\ ptr' = b /\ pool' = {}
-     /\ utxo' = utxo \cup {AwardU(b)} \cup UNION {FeeU(t) : t \in pool} /\ total' = total + Award
+     /\ ptr' = b /\ pool' = pool \ Packable
+     /\ utxo' = utxo \cup {AwardU(b)} \cup UNION {FeeU(t) : t \in Packable} /\ total' = total + Award
      /\ UNCHANGED <<zu, zd, dev, pruned>>
      /\ applied' = applied \cup {b}
      /\ irr' = NextIrr(irr, Height(ptr) + 1)
@@ -282,6 +253,7 @@ LCA(a, b) == CHOOSE c \in Anc(a) \cap Anc(b) : \A d \in Anc(a) \cap Anc(b) : Hei
 PruneIrr(h, ir) == IF Window = 0 THEN ir ELSE IF h - Window <= 0 THEN 0 ELSE h - Window
 Rec(s, p, ir, pl) == [s |-> s, ptr |-> p, irr |-> ir, pool |-> pl]
 CurRec == Rec(St, ptr, irr, pool)
+Force(x) == CHOOSE y \in {x} : TRUE        \* evaluate once
 LastOr(seq, dflt) == IF seq = <<>> THEN dflt ELSE seq[Len(seq)]
 RECURSIVE UndoSteps(_, _, _, _, _)    \* refuses at or below the irreversible height unless pruning
 UndoSteps(s, b, stop, prune, ir) ==
@@ -301,13 +273,14 @@ RedoSteps(s, seq, ir, ideal) ==
                 rest == RedoSteps(r.s, Tail(seq), ir2, ideal) IN
             [ok |-> rest.ok, seq |-> <<Rec(r.s, b, ir2, {})>> \o rest.seq]
 (* recoverUnconfirmedTx: rolled-back pool members are re-admitted in the given order when still valid *)
-RECURSIVE ReadmitSteps(_, _, _)
-ReadmitSteps(rec, seq, lh) ==
+RECURSIVE ReadmitStepsX(_, _, _, _)
+ReadmitStepsX(rec, seq, lh, skipConfirmed) ==
   IF seq = <<>> THEN <<>>
   ELSE LET t == Head(seq) IN
-       IF Valid(rec.s, t, lh)
-       THEN LET r2 == Rec(Apply(rec.s, t), rec.ptr, rec.irr, rec.pool \cup {t}) IN <<r2>> \o ReadmitSteps(r2, Tail(seq), lh)
-       ELSE ReadmitSteps(rec, Tail(seq), lh)
+       IF ~(skipConfirmed /\ Confirmed(t)) /\ Valid(rec.s, t, lh)
+       THEN LET r2 == Rec(Apply(rec.s, t), rec.ptr, rec.irr, rec.pool \cup {t}) IN <<r2>> \o ReadmitStepsX(r2, Tail(seq), lh, skipConfirmed)
+       ELSE ReadmitStepsX(rec, Tail(seq), lh, skipConfirmed)
+ReadmitSteps(rec, seq, lh) == ReadmitStepsX(rec, seq, lh, TRUE)   \* a tx that is on the main chain by now is not re-admitted
 WalkSteps(rec, d, prune, order, ideal) ==
   LET w1 == Rec(UndoSet(rec.s, rec.pool), rec.ptr, rec.irr, {})     \* the whole pool is rolled back first
       c == LCA(rec.ptr, d)
@@ -374,6 +347,74 @@ WalkBlockWrites(d, prune) == Len(WalkSteps(CurRec, d, prune, <<>>, FALSE).steps)
 (* the single write of any other operation fails: nothing changes *)
 OpFault(o, r) == UNCHANGED <<blk, n, ltip, ptr, utxo, zu, zd, total, irr, pool, dev, applied, pruned>> /\ Log([op |-> o, fault |-> 0, res |-> r])
 
+(* ---- C13: the order in which the pool yields its transactions, and what a replica makes of the block -- *)
+(* producers first; a transaction that only read a key version comes before the one that supersedes it *)
+AntiDep(r, w) == r # w /\ \E k \in Keys : /\ TX[w].writes[k] # NoRd /\ TX[r].writes[k] = NoRd
+                                            /\ TX[r].reads[k] # NoRd /\ TX[r].reads[k] = TX[w].reads[k]
+PoolOrderOK(seq) == \A i, j \in DOMAIN seq : i < j => ~DependsOn(seq[i], seq[j]) /\ ~AntiDep(seq[j], seq[i])
+RECURSIVE GoodOrder(_)       \* one admissible order, built greedily (exists for every conflict-free pool)
+GoodOrder(S) == IF S = {} THEN <<>>
+                ELSE LET ok == {c \in S : ~\E u \in S \ {c} : DependsOn(c, u) \/ AntiDep(u, c)}
+                         c == IF ok = {} THEN CHOOSE x \in S : TRUE ELSE CHOOSE x \in ok : TRUE IN
+                     <<c>> \o GoodOrder(S \ {c})
+(* a node that never saw the transactions confirms the chain of b and walks to it *)
+ReplicaObs(b) ==
+  LET w == Force(WalkSteps(Rec(S0, 1, 0, {}), b, FALSE, <<>>, TRUE)) IN
+  [res |-> IF w.ok THEN "ok" ELSE "fail", rec |-> Fin(w)]
+
+(* ---- Play: PlayAndRepost of a block whose parent is the pointer ------------------------------- *)
+Descendants(S) == LET RECURSIVE D(_)
+                      D(X) == LET Y == X \cup {t \in pool : \E u \in X : DependsOn(t, u)} IN IF Y = X THEN X ELSE D(Y)
+                  IN D(S)
+(* processUnconfirmTxs: pool members that conflict with the block *)
+BlockVersion(b, k) ==    \* version the block leaves for key k (NoRd if it does not write k)
+  LET ws == {i \in DOMAIN blk[b].txs : TX[blk[b].txs[i]].writes[k] # NoRd} IN
+  IF ws = {} THEN NoRd ELSE blk[b].txs[Max(ws)]
+Conflicts(b) ==
+  LET inb == TxsOf(b)
+      binputs == UNION {TX[t].ins : t \in inb} IN
+  {u \in pool \ inb :
+     \/ TX[u].ins \cap binputs # {}
+     \/ \E k \in Keys : /\ BlockVersion(b, k) # NoRd /\ BlockVersion(b, k) \notin pool
+                        /\ \/ (TX[u].reads[k] # NoRd /\ TX[u].reads[k] # BlockVersion(b, k))
+                           \/ (TX[u].writes[k] # NoRd /\ u # BlockVersion(b, k))}
+(* obsres: the result observed on the real node ("ok" / "fail"; trace validation) or "*" (generation, MC).
+   Known deviation KF_PoolMasksBlockOrder: PlayAndRepost validates the block's transactions against the
+   stored state, which still contains the effects of the node's own pending transactions (those it
+   undoes as conflicting are only undone in the batch). When the node's pool is not empty and a node
+   without that pool would refuse the block, the outcome on the real node is therefore not determined
+   by the design: the deviation accepts whatever was observed and the rest of the behaviour is not judged. *)
+Play(b, obsres) ==
+  /\ b \in 2..n
+  /\ IF Parent(b) # ptr
+     THEN UNCHANGED <<ptr, utxo, zu, zd, total, irr, pool, dev, applied>> /\ Log([op |-> "play", b |-> b, res |-> "fail"])
+     ELSE LET undone == Descendants(Conflicts(b))
+              keep == pool \cap TxsOf(b)
+              base == UndoSet(St, undone)
+              r  == PlayBlock(base, b, keep, BlockLH(b))
+              ri == PlayBlock(base, b, keep, Height(b))
+              fresh == PlayBlock(UndoSet(St, pool), b, {}, Height(b)).ok   \* would a node without this pool play it?
+              masked == KF_PoolMasksBlockOrder /\ pool # {} /\ ~fresh
+              ok == IF masked THEN (IF obsres = "*" THEN r.ok ELSE obsres = "ok") ELSE r.ok /\ fresh
+              s2 == IF r.ok THEN r.s ELSE ForceTxs([base EXCEPT !.utxo = @ \cup {AwardU(b)}, !.total = @ + Award], blk[b].txs)
+              pool1 == (pool \ undone) \ keep            \* what processUnconfirmTxs leaves pending
+              (* Known deviation KF_PlayKeepsStaleReader: a pending transaction that only READ a key version which the
+                 block supersedes is not recognised as conflicting when the superseding transaction was itself pending
+                 on this node; it stays in the pool although its input is no longer current. IDEAL: what stays pending
+                 is what can be re-applied on top of the new chain state. *)
+              again == ReadmitStepsX(Rec(UndoSet(s2, pool1), b, irr, {}), GoodOrder(pool1), LHeight, FALSE)
+              pool2 == IF again = <<>> THEN {} ELSE again[Len(again)].pool
+              s3 == IF again = <<>> THEN UndoSet(s2, pool1) ELSE again[Len(again)].s
+              keepStale == KF_PlayKeepsStaleReader \/ masked IN
+          /\ dev' = (DevFrozen(r.ok # ri.ok) \cup (IF masked /\ ok THEN {"KF_PoolMasksBlockOrder"} ELSE {})
+                                            \cup (IF ok /\ ~masked /\ KF_PlayKeepsStaleReader /\ pool2 # pool1 THEN {"KF_PlayKeepsStaleReader"} ELSE {}))
+          /\ IF ok THEN /\ Set(IF keepStale THEN s2 ELSE s3) /\ ptr' = b /\ pool' = (IF keepStale THEN pool1 ELSE pool2)
+                         /\ irr' = NextIrr(irr, Height(b))
+                         /\ applied' = applied \cup {b}
+                         /\ Log([op |-> "play", b |-> b, res |-> "ok"])
+             ELSE UNCHANGED <<ptr, utxo, zu, zd, total, irr, pool, applied>> /\ Log([op |-> "play", b |-> b, res |-> "fail"])
+  /\ UNCHANGED <<blk, n, ltip, pruned>>
+
 (* ---- PlayForMiner: second half of Mine as a step of its own (the first half is a block confirmation);
    the harness records a mined block as these two events, so that the crash point between the two
    storage writes of Mine is an ordinary state of the specification ---------------------------------- *)
@@ -397,7 +438,7 @@ Next ==
   /\ \/ \E t \in Txs : Submit(t)
      \/ \E p \in 1..n, seq \in TxSeqs : MkBlock(p, seq)
      \/ \E b \in 2..n : Play(b, "*")
-     \/ Mine(TopoOrder(pool))
+     \/ Mine(GoodOrder(Packable))
      \/ \E d \in 1..n : Walk(d, FALSE, {"*"}, <<>>)
      \/ Restart
 Spec == Init /\ [][Next]_vars
@@ -431,7 +472,6 @@ ObsOf(rec, lt) ==
 Obs == ObsOf(CurRec, ltip)
 (* C06: what the node answers after "sync to the ledger tip" (Walk(ltip)) followed by a roll-back of the pool,
    started from the persisted state rec *)
-Force(x) == CHOOSE y \in {x} : TRUE        \* evaluate once
 SyncObs(rec) ==
   LET w == Force(WalkSteps(rec, ltip, FALSE, TopoOrder(rec.pool), FALSE))
       f == Force(Fin(w))
@@ -451,7 +491,10 @@ Supersedes(t, k) == TX[t].writes[k] # NoRd
 NoDoubleSpend == \A t, u \in Admitted : t # u =>
                     /\ TX[t].ins \cap TX[u].ins = {}
                     /\ \A k \in Keys : ~(Supersedes(t, k) /\ Supersedes(u, k) /\ TX[t].reads[k] = TX[u].reads[k])
-PoolValid == \A t \in pool : \A i \in TX[t].ins : ~InUtxo(St, i)   \* inputs of pending txs are consumed
+RECURSIVE AllApply(_, _, _)
+AllApply(s, seq, lh) == seq = <<>> \/ (Valid(s, Head(seq), lh) /\ AllApply(Apply(s, Head(seq)), Tail(seq), lh))
+PoolValid == /\ \A t \in pool : \A i \in TX[t].ins : ~InUtxo(St, i)        \* inputs of pending txs are consumed
+             /\ AllApply(UndoSet(St, pool), GoodOrder(pool), LHeight)        \* and all of them apply on the chain state
 (* C17: with window w > 0 the irreversible height is max(0, max over blocks ever applied of height - w);
    it never decreases and the pointer's chain keeps every applied block at or below it (pruning aside) *)
 MaxApplied == Max({Height(b) : b \in applied})
@@ -461,8 +504,6 @@ IrrKept == [][pruned' \/ \A b \in Anc(ptr) : Height(b) <= irr => b \in Anc(ptr)'
 (* C18: the snapshot reader, written like xModSnapshot.Get: start from the newest version (pending writes
    included), follow each writer's own input reference backwards, skip unconfirmed writers, stop at the
    first writer confirmed at a height <= the snapshot block's *)
-TxHeight(v) == Height(CHOOSE b \in Anc(ltip) : v \in TxsOf(b))
-Confirmed(v) == \E b \in Anc(ltip) : v \in TxsOf(b)
 RECURSIVE SnapWalk(_, _, _)
 SnapWalk(v, k, h) == IF v = None THEN None
                      ELSE IF v \notin pool /\ Confirmed(v) /\ TxHeight(v) <= h THEN v
@@ -470,6 +511,8 @@ SnapWalk(v, k, h) == IF v = None THEN None
 SnapGet(B, k) == SnapWalk(Cur(St, k), k, Height(B))
 SnapshotOK == ptr \in Anc(ltip) => \A B \in Anc(ptr), k \in Keys : Replay(B).ok => SnapGet(B, k) = Cur(Replay(B).s, k)
 TypeOK == ptr \in 1..n /\ ltip \in 1..n
+(* C13 (design level): a block packed from the pool in ANY admissible order is valid on its chain *)
+MinedBlocksValid == ptr = ltip => \A o \in TopoOrders(Packable) : PoolOrderOK(o) => SeqValidOn(ptr, o)
 
 View == <<blk, n, ltip, ptr, utxo, zu, zd, total, irr, pool, dev>>
 ViewIrr == <<blk, n, ltip, ptr, utxo, zu, zd, total, irr, pool, dev, applied, pruned>>
